@@ -208,7 +208,7 @@ Qed.
 
 (* the decision of the theorems above (decision_g) IS what the regenerated get_discrete_policy_calculator returns on   *)
 (* the conditional-value array, for the variable_info of a model without filter-restricted variables                    *)
-From LCM Require Import Gen.SimulateKernels Proofs.C18_AxesFilterFree.
+From LCM Require Import Gen.SimulateKernels Proofs.C18_AxesFilterFree Proofs.C18_AxesSimulation.
 Theorem C02_code_policy_calculator_of_a_model_without_filters :
   forall (dst dch cst cch : list (string * grid)) uf colsD colsC,
   NoDup (map fst (dst ++ dch ++ cst ++ cch)) ->
